@@ -120,6 +120,10 @@ def _run_shard(prop, cases, devices, scratch, idx, timeout, extra_env):
     fin = scratch / f"in_{idx}.json"
     fout = scratch / f"out_{idx}.jsonl"
     fin.write_text(json.dumps(cases))
+    if isinstance(devices, tuple):
+        devices, no_x64 = devices
+        if no_x64:
+            extra_env = dict(extra_env or {}, VF_NO_X64="1")
     env = worker_env(devices, extra_env)
     t0 = time.time()
     try:
@@ -148,9 +152,11 @@ def _run_shard(prop, cases, devices, scratch, idx, timeout, extra_env):
 def run_cases(prop: str, cases: list, scratch: Path, shard_timeout: float,
               target_shards: int | None = None, extra_env: dict | None = None) -> list:
     """Split cases into shards (grouped by device count) and run them on all cores."""
+    # shard key: (device count, 64-bit mode left OFF in the worker).  Cases marked no_x64 run in workers that do
+    # not enable 64-bit mode first - the state a problem built before its solver (README order) is constructed in
     by_dev: dict = {}
     for c in cases:
-        by_dev.setdefault(int(c.get("devices", 1)), []).append(c)
+        by_dev.setdefault((int(c.get("devices", 1)), bool(c.get("no_x64"))), []).append(c)
     shards = []
     total = len(cases)
     target = target_shards or N_CORES * 2
